@@ -121,18 +121,24 @@ impl<I: ObjectWrite> Stream<I> {
         };
         let mut params = None;
         if self.info.filters.len() > 0 {
+            // one entry per filter, in the order of /Filter: the parameters of that filter, or null
+            let mut all_params = Vec::with_capacity(self.info.filters.len());
             for f in self.info.filters.iter() {
-                if let Some(para) = match f {
-                    StreamFilter::LZWDecode(ref p) => Some(p.to_primitive(update)?),
-                    StreamFilter::FlateDecode(ref p) => Some(p.to_primitive(update)?),
-                    StreamFilter::DCTDecode(ref p) => Some(p.to_primitive(update)?),
-                    StreamFilter::CCITTFaxDecode(ref p) => Some(p.to_primitive(update)?),
-                    StreamFilter::JBIG2Decode(ref p) => Some(p.to_primitive(update)?),
-                    _ => None
-                } {
-                    assert!(params.is_none());
-                    params = Some(para);
-                }
+                all_params.push(match f {
+                    StreamFilter::LZWDecode(ref p) => p.to_primitive(update)?,
+                    StreamFilter::FlateDecode(ref p) => p.to_primitive(update)?,
+                    StreamFilter::DCTDecode(ref p) => p.to_primitive(update)?,
+                    StreamFilter::CCITTFaxDecode(ref p) => p.to_primitive(update)?,
+                    StreamFilter::JBIG2Decode(ref p) => p.to_primitive(update)?,
+                    _ => Primitive::Null
+                });
+            }
+            if all_params.iter().any(|p| !matches!(p, Primitive::Null)) {
+                params = Some(if all_params.len() == 1 {
+                    all_params.pop().unwrap()
+                } else {
+                    Primitive::Array(all_params)
+                });
             }
             let mut filters = self.info.filters.iter().map(|filter| match filter {
                 StreamFilter::ASCIIHexDecode => "ASCIIHexDecode",
